@@ -15,9 +15,8 @@
 //!   `EU R|T x<name> <s> <e>`
 //!   `W <UnusedRule|UnusedToken> <s> <e>`    warnings (GrammarAST::warnings)
 //!   `BADSPAN <s> <e>`                       any span that is not s <= e <= len on char boundaries
-//! Hash-order freedom: when validation reports `UnknownEPP`, the reported key is checked to be one
-//! of the %epp keys that are neither tokens nor implicit tokens and the one with the smallest span
-//! is printed (the implementation returns whichever its HashMap iterates first).
+//! No canonicalisation of errors: the `UnknownEPP` reported by validation is printed as reported
+//! (kind argument and span); of several unknown %epp keys it must be the one declared first.
 use cfgrammar::yacc::ast::{ASTWithValidityInfo, GrammarAST, Symbol};
 use cfgrammar::yacc::{AssocKind, YaccGrammar, YaccGrammarError, YaccKind, YaccOriginalActionKind};
 use cfgrammar::{Span, Spanned};
@@ -73,30 +72,10 @@ fn dump(src: &str, a: &ASTWithValidityInfo) -> String {
         write!(o, "ERRS {}", errs.len()).unwrap();
     }
     for e in errs {
-        let mut k = kind_of(&format!("{:?}", e), &format!("{}", e));
-        let mut spans: Vec<Span> = e.spans().to_vec();
-        if k.starts_with("UnknownEPP:") {
-            // canonicalise the hash-iteration freedom
-            let mut cands: Vec<(&String, Span)> = ast
-                .epp
-                .iter()
-                .filter(|(key, _)| {
-                    !ast.tokens.contains(*key)
-                        && !ast.implicit_tokens.as_ref().map_or(false, |it| it.contains_key(*key))
-                })
-                .map(|(key, (s, _))| (key, *s))
-                .collect();
-            cands.sort_by_key(|(_, s)| s.start());
-            let reported_ok = cands
-                .iter()
-                .any(|(key, s)| format!("UnknownEPP:{}", xh(key)) == k && spans.len() == 1 && spans[0] == *s);
-            if reported_ok {
-                k = format!("UnknownEPP:{}", xh(cands[0].0));
-                spans = vec![cands[0].1];
-            } else {
-                k = format!("{}!notacandidate", k);
-            }
-        }
+        // reported as it is: since /repo 3e32e4e the unknown %epp key reported is the one declared first
+        // (no hash-order freedom left to canonicalise)
+        let k = kind_of(&format!("{:?}", e), &format!("{}", e));
+        let spans: Vec<Span> = e.spans().to_vec();
         write!(o, " # E {}", k).unwrap();
         for s in spans {
             sp.push(s);
